@@ -847,6 +847,122 @@ func init() {
 		ex.rpanic("reflect.Value.Bytes", rv)
 		return nil
 	})
+	setIntrinsic("(reflect.Value).Addr", func(ex *Exec, fn *ssa.Function, a []Value) Value {
+		rv := R(a)
+		if !rv.CanAddr || rv.P == nil {
+			ex.gopanic("reflect.Value.Addr of unaddressable value")
+		}
+		return &RV{T: types.NewPointer(rv.T), V: &PtrV{P: rv.P, Addr: rv.Addr, T: rv.T}, RO: rv.RO}
+	})
+	setIntrinsic("(reflect.Value).IsZero", func(ex *Exec, fn *ssa.Function, a []Value) Value {
+		rv := R(a)
+		if rv.T == nil {
+			ex.rpanic("reflect.Value.IsZero", rv)
+		}
+		return ex.isZeroValue(rv.val())
+	})
+	setIntrinsic("(reflect.Value).SetLen", func(ex *Exec, fn *ssa.Function, a []Value) Value {
+		rv := R(a)
+		ex.mustAssignable("reflect.Value.SetLen", rv)
+		s, ok := rv.val().(*SliceV)
+		if !ok || kindOf(rv.T) != kSlice {
+			ex.rpanic("reflect.Value.SetLen", rv)
+		}
+		n := a[1].(*Term)
+		if !ex.branch(And(BVCmp("bvsle", i64(0), n), BVCmp("bvsle", n, s.Cap))) {
+			ex.gopanic("reflect: slice length out of range in SetLen")
+		}
+		ex.storeInto(rv.P, &SliceV{Arr: s.Arr, Off: s.Off, Len: n, Cap: s.Cap})
+		return nil
+	})
+	setIntrinsic("(reflect.Value).Slice", func(ex *Exec, fn *ssa.Function, a []Value) Value {
+		rv := R(a)
+		lo, hi := ex.concInt(a[1].(*Term)), ex.concInt(a[2].(*Term))
+		switch x := rv.val().(type) {
+		case *SliceV:
+			if kindOf(rv.T) == kSlice {
+				c := ex.concInt(x.Cap)
+				if lo < 0 || hi < lo || hi > c {
+					ex.gopanic("reflect.Value.Slice: slice index out of bounds")
+				}
+				if x.Arr == nil {
+					return &RV{T: rv.T, V: &SliceV{Len: i64(0), Cap: i64(0)}}
+				}
+				return &RV{T: rv.T, V: &SliceV{Arr: x.Arr, Off: x.Off + lo, Len: i64(int64(hi - lo)), Cap: i64(int64(c - lo))}}
+			}
+		case *StrV:
+			if lo < 0 || hi < lo || hi > len(x.B) {
+				ex.gopanic("reflect.Value.Slice: string slice index out of bounds")
+			}
+			return &RV{T: rv.T, V: &StrV{B: x.B[lo:hi]}}
+		}
+		ex.rpanic("reflect.Value.Slice", rv)
+		return nil
+	})
+	setIntrinsic("(reflect.Value).SetBytes", func(ex *Exec, fn *ssa.Function, a []Value) Value {
+		rv := R(a)
+		ex.mustAssignable("reflect.Value.SetBytes", rv)
+		if kindOf(rv.T) != kSlice {
+			ex.rpanic("reflect.Value.SetBytes", rv)
+		}
+		ex.storeInto(rv.P, a[1])
+		return nil
+	})
+	setIntrinsic("(reflect.Value).Convert", func(ex *Exec, fn *ssa.Function, a []Value) Value {
+		rv := R(a)
+		to := ex.rtArg(a[1], "Convert")
+		if rv.T == nil {
+			ex.rpanic("reflect.Value.Convert", rv)
+		}
+		if !types.ConvertibleTo(rv.T, to) {
+			ex.gopanic("reflect.Value.Convert: value of type " + rtypeString(rv.T) + " cannot be converted to type " + rtypeString(to))
+		}
+		if types.IsInterface(to) {
+			return &RV{T: to, V: &IfaceV{T: rv.T, V: ex.copyVal(rv.val())}}
+		}
+		if types.Identical(under(rv.T), under(to)) {
+			return &RV{T: to, V: ex.copyVal(rv.val())}
+		}
+		return &RV{T: to, V: ex.convert(rv.T, to, rv.val())}
+	})
+	setIntrinsic("reflect.Indirect", func(ex *Exec, fn *ssa.Function, a []Value) Value {
+		rv := R(a)
+		if kindOf(rv.T) != kPtr {
+			return rv
+		}
+		return ex.rvElem(rv)
+	})
+	ptrTo := func(ex *Exec, fn *ssa.Function, a []Value) Value {
+		return ex.mkRT(types.NewPointer(ex.rtArg(a[0], "PointerTo")))
+	}
+	setIntrinsic("reflect.PtrTo", ptrTo)
+	setIntrinsic("reflect.PointerTo", ptrTo)
+	setIntrinsic("reflect.SliceOf", func(ex *Exec, fn *ssa.Function, a []Value) Value {
+		return ex.mkRT(types.NewSlice(ex.rtArg(a[0], "SliceOf")))
+	})
+	setIntrinsic("reflect.MapOf", func(ex *Exec, fn *ssa.Function, a []Value) Value {
+		return ex.mkRT(types.NewMap(ex.rtArg(a[0], "MapOf"), ex.rtArg(a[1], "MapOf")))
+	})
+	setIntrinsic("reflect.AppendSlice", func(ex *Exec, fn *ssa.Function, a []Value) Value {
+		s, t := R(a), a[1].(*RV)
+		if kindOf(s.T) != kSlice || kindOf(t.T) != kSlice {
+			ex.rpanic("reflect.AppendSlice", s)
+		}
+		et := under(s.T).(*types.Slice).Elem()
+		if !types.Identical(et, under(t.T).(*types.Slice).Elem()) {
+			ex.gopanic("reflect.AppendSlice: " + rtypeString(s.T) + " != " + rtypeString(t.T))
+		}
+		ts := t.val().(*SliceV)
+		n := ex.concInt(ts.Len)
+		var elems []Value
+		for i := 0; i < n; i++ {
+			elems = append(elems, ex.copyVal(ts.Arr.cell(ts.Off+i).V))
+		}
+		if n == 0 {
+			return &RV{T: s.T, V: s.val()}
+		}
+		return &RV{T: s.T, V: ex.appendVals(s.val().(*SliceV), elems, et)}
+	})
 	setIntrinsic("(reflect.Kind).String", func(ex *Exec, fn *ssa.Function, a []Value) Value {
 		k := ex.concInt(a[0].(*Term))
 		if k >= 0 && k < len(kindNames) {
@@ -963,3 +1079,46 @@ func (ex *Exec) concString(s *StrV) string {
 }
 
 var _ = fmt.Sprint
+
+// isZeroValue: reflect.Value.IsZero.
+func (ex *Exec) isZeroValue(v Value) *Term {
+	switch x := v.(type) {
+	case *Term:
+		switch x.S.K {
+		case SBool:
+			return Not(x)
+		case SBV:
+			return Eq(x, mkBV(x.S.W, 0))
+		default:
+			return Eq(FToBits(x), mkBV(x.S.W, 0))
+		}
+	case *StrV:
+		return mkBool(len(x.B) == 0)
+	case *PtrV:
+		return mkBool(x.P == nil)
+	case *SliceV:
+		return mkBool(x.Arr == nil)
+	case *MapV:
+		return mkBool(x == nil)
+	case *ChanV:
+		return mkBool(x == nil)
+	case *ClosureV:
+		return mkBool(x == nil)
+	case *IfaceV:
+		return mkBool(x.T == nil)
+	case *StructV:
+		acc := trueT
+		for _, c := range x.F {
+			acc = And(acc, ex.isZeroValue(c.V))
+		}
+		return acc
+	case *ArrV:
+		n, _ := constInt(x.N)
+		acc := trueT
+		for i := 0; i < n; i++ {
+			acc = And(acc, ex.isZeroValue(x.cell(i).V))
+		}
+		return acc
+	}
+	return falseT
+}
